@@ -31,7 +31,85 @@ import (
 	"github.com/apache/thrift/lib/go/thrift"
 )
 
-const adpWatch = 4 * time.Second
+// adpWatch is the watchdog, in time during which this process was demonstrably being scheduled
+// (see wdT): on a machine that is overloaded by other work a goroutine that is merely starved is
+// not reported as blocked.
+const adpWatch = 2 * time.Second
+
+var (
+	healthTicks int64 // 10 ms sleeps of the health goroutine that were served within 25 ms
+	healthOnce  sync.Once
+)
+
+func startHealth() {
+	healthOnce.Do(func() {
+		go func() {
+			for {
+				t0 := time.Now()
+				time.Sleep(10 * time.Millisecond)
+				if time.Since(t0) < 25*time.Millisecond {
+					atomic.AddInt64(&healthTicks, 1)
+				}
+			}
+		}()
+	})
+}
+
+// wdT is one wait's watchdog: it expires once adpWatch has passed AND at least three quarters of
+// that much time was served to this process promptly since the wait began (hard cap: 45 x adpWatch).
+type wdT struct {
+	ticks int64
+	wall  time.Time
+	d     time.Duration
+}
+
+func newWd(d time.Duration) *wdT {
+	startHealth()
+	return &wdT{ticks: atomic.LoadInt64(&healthTicks), wall: time.Now(), d: d}
+}
+
+func (w *wdT) C() <-chan time.Time { return time.After(w.d / 4) }
+
+func (w *wdT) Expired() bool {
+	el := time.Since(w.wall)
+	if el < w.d {
+		return false
+	}
+	served := time.Duration(atomic.LoadInt64(&healthTicks)-w.ticks) * 10 * time.Millisecond
+	return served >= w.d*3/4 || el > 45*w.d
+}
+
+// laRecv receives from ch under the load-aware watchdog; ok=false: the watchdog expired.
+func laRecv[T any](ch <-chan T, d time.Duration) (v T, ok bool) {
+	for w := newWd(d); ; {
+		select {
+		case v = <-ch:
+			return v, true
+		case <-w.C():
+			if w.Expired() {
+				return v, false
+			}
+		}
+	}
+}
+
+// laGuard is guard() (recover + watchdog) with the load-aware watchdog.
+func laGuard(d time.Duration, f func()) string {
+	done := make(chan string, 1)
+	go func() {
+		defer func() {
+			if r := recover(); r != nil {
+				done <- "panic:" + panicClass(r)
+			}
+		}()
+		f()
+		done <- ""
+	}()
+	if o, ok := laRecv(done, d); ok {
+		return o
+	}
+	return "blocked"
+}
 
 var adpDebug = os.Getenv("ADPDEBUG") != ""
 
@@ -173,12 +251,8 @@ func (t *scriptT) feedWait(b []byte, term error) bool {
 	if !t.feed(b, term) {
 		return false
 	}
-	select {
-	case <-t.consumed:
-		return true
-	case <-time.After(adpWatch):
-		return false
-	}
+	_, ok := laRecv(t.consumed, adpWatch)
+	return ok
 }
 
 func (t *scriptT) takeWoken() int {
@@ -193,7 +267,7 @@ func (t *scriptT) armFail() { t.mu.Lock(); t.failOpen++; t.mu.Unlock() }
 
 // waitReader waits until a reader is blocked in Read (watchdog: false).
 func (t *scriptT) waitReader() bool {
-	for dl := time.Now().Add(adpWatch); time.Now().Before(dl); time.Sleep(100 * time.Microsecond) {
+	for w := newWd(adpWatch); !w.Expired(); time.Sleep(100 * time.Microsecond) {
 		t.mu.Lock()
 		b := t.blocked
 		t.mu.Unlock()
@@ -420,20 +494,20 @@ func (c *adpCtl) opened(ch <-chan error) {
 		return
 	}
 	for {
-		select {
-		case g := <-c.tr.arrive:
-			if _, old := c.ents[g]; old {
-				continue
-			}
-			c.readerG = g
-			c.know(g)
-			c.nLoops++
-			e := &adpEnt{isLoop: true, idx: len(c.incs), st: "read"}
-			c.ents[g] = e
-			c.order = append(c.order, e)
-		case <-time.After(adpWatch):
+		g, ok := laRecv(c.tr.arrive, adpWatch)
+		if !ok {
 			c.violate("no read loop started reading after Open returned nil")
+			return
 		}
+		if _, old := c.ents[g]; old {
+			continue
+		}
+		c.readerG = g
+		c.know(g)
+		c.nLoops++
+		e := &adpEnt{isLoop: true, idx: len(c.incs), st: "read"}
+		c.ents[g] = e
+		c.order = append(c.order, e)
 		return
 	}
 }
@@ -441,13 +515,12 @@ func (c *adpCtl) opened(ch <-chan error) {
 // backInRead waits until the reading loop blocks in Read again (after a delivered frame).
 func (c *adpCtl) backInRead() bool {
 	for {
-		select {
-		case g := <-c.tr.arrive:
-			if g == c.readerG {
-				return true
-			}
-		case <-time.After(adpWatch):
+		g, ok := laRecv(c.tr.arrive, adpWatch)
+		if !ok {
 			return false
+		}
+		if g == c.readerG {
+			return true
 		}
 	}
 }
@@ -504,10 +577,12 @@ func (c *adpCtl) closeCompleted() {
 // settle processes events of the real system until nothing the controller follows can move.
 func (c *adpCtl) settle() {
 	for c.running() {
-		select {
-		case x := <-c.evq:
+		x, ok := laRecv(c.evq, adpWatch)
+		if ok {
 			c.dispatch(x)
-		case <-time.After(adpWatch):
+			continue
+		}
+		{
 			for _, e := range c.order {
 				if e.st == "run" || e.st == "closing" {
 					if c.holder != nil || len(c.parkedQ) > 0 {
@@ -907,21 +982,20 @@ func runAdp(hist []byte, cfg adpCfg) (string, []string) {
 			if !c.tr.feedWait(fr, nil) {
 				return "skip"
 			}
-			select {
-			case got := <-resC:
-				if string(got) != string(fr[4:]) {
-					c.violate("delivered frame differs from the frame sent")
-					return "d?"
-				}
-				if !c.backInRead() {
-					c.violate("read loop did not come back for the next frame")
-					return "d!"
-				}
-				return "d"
-			case <-time.After(adpWatch):
+			got, ok := laRecv(resC, adpWatch)
+			if !ok {
 				c.violate("a whole frame was not delivered")
 				return "blocked"
 			}
+			if string(got) != string(fr[4:]) {
+				c.violate("delivered frame differs from the frame sent")
+				return "d?"
+			}
+			if !c.backInRead() {
+				c.violate("read loop did not come back for the next frame")
+				return "d!"
+			}
+			return "d"
 		case 4, 5, 6, 7, 8, 9: // failures of the inbound stream
 			if c.readerG == 0 || (!newRunnerOK && !(c.armErrSet() && a != 7)) {
 				return "skip"
@@ -964,11 +1038,10 @@ func runAdp(hist []byte, cfg adpCfg) (string, []string) {
 			}
 			if a != 7 {
 				// the failed read reaches the onerror point (event of the real system)
-				for wd := time.After(adpWatch); !e.pastErr; {
-					select {
-					case x := <-c.evq:
+				for !e.pastErr {
+					if x, ok := laRecv(c.evq, adpWatch); ok {
 						c.dispatch(x)
-					case <-wd:
+					} else {
 						c.note += "!lostloop"
 						e.pastErr = true
 					}
@@ -1132,13 +1205,13 @@ func (c *adpCtl) finish(nHist int, outs, fl []string, cfg adpCfg) (string, []str
 	c.hmu.Unlock()
 	if c.sock != nil {
 		c.sock.shutdown()
-		guard(adpWatch, func() { c.ft.Close() })
+		laGuard(adpWatch, func() { c.ft.Close() })
 		// every read loop of this history has returned before the next history installs its controller
-		for dl := time.Now().Add(adpWatch); int(atomic.LoadInt32(&c.exits)) < c.nLoops && time.Now().Before(dl); {
+		for w := newWd(adpWatch); int(atomic.LoadInt32(&c.exits)) < c.nLoops && !w.Expired(); {
 			time.Sleep(200 * time.Microsecond)
 		}
 	} else if fin.res == "true" {
-		guard(adpWatch, func() { c.ft.Close() })
+		laGuard(adpWatch, func() { c.ft.Close() })
 	} else {
 		c.tr.Close()
 	}
@@ -1160,10 +1233,12 @@ func (c *adpCtl) releaseEnt(e *adpEnt) {
 // settleMon: the monitor runs from its parked callback until it is idle, parked again or has terminated.
 func (c *adpCtl) settleMon() {
 	for c.monState == "busy" || c.monExpect || c.running() {
-		select {
-		case x := <-c.evq:
+		x, ok := laRecv(c.evq, adpWatch+200*time.Millisecond)
+		if ok {
 			c.dispatch(x)
-		case <-time.After(adpWatch + 200*time.Millisecond):
+			continue
+		}
+		{
 			if c.monExpect {
 				c.monExpect = false
 				c.stepMon = append(c.stepMon, "!-")
@@ -1556,7 +1631,7 @@ loop:
 		}
 	}
 	open := "blocked"
-	if o := guard(adpWatch, func() { open = fmt.Sprint(ft.IsOpen()) }); o != "" {
+	if o := laGuard(adpWatch, func() { open = fmt.Sprint(ft.IsOpen()) }); o != "" {
 		open = o
 	}
 	// frames delivered, in stream order per op id
@@ -1599,7 +1674,7 @@ loop:
 		viol = append(viol, "IsOpen="+open+" after the stream ended")
 	}
 	if open == "true" {
-		guard(adpWatch, func() { ft.Close() })
+		laGuard(adpWatch, func() { ft.Close() })
 	}
 	return fmt.Sprintf("delivered=%d closed=%s values=%d open=%s", n, c, len(vals), open), got, viol
 }
